@@ -33,6 +33,8 @@ S1, S2 = "<<default-sentinel>>", "<<cas-default-sentinel>>"
 STACKS = [
     ("client", 1, {}), ("pooled", 1, {}), ("hash", 1, {}), ("hash", 2, {}), ("hash", 3, {"retry_attempts": 0}),
     ("hashpooled", 1, {}), ("hashpooled", 2, {"retry_attempts": 0}),
+    # servers given as UNIX socket paths (a str, not a (host, port) pair, all the way through the fail-over bookkeeping)
+    ("client", 1, {"_unix": True}), ("hash", 2, {"_unix": True, "retry_attempts": 0}), ("hashpooled", 1, {"_unix": True}),
 ]
 
 
@@ -54,7 +56,9 @@ def reads_for(stack, with_defaults):
     return R
 
 
-def servers_for(n):
+def servers_for(n, unix=False):
+    if unix:
+        return ["/var/run/memcached/mc%d.sock" % i for i in range(1, n + 1)]
     return [("mc%d" % i, 11211) for i in range(1, n + 1)]
 
 
@@ -71,6 +75,7 @@ FOLLOW = [("set", ("after", b"still-usable"), {"noreply": False}), ("get", ("aft
 
 def base_case(stack, nserv, extra, op, warm, prefill=None, serde=None, pre_ops=(), post_health=()):
     cfg = dict(extra, ignore_exc=True)
+    unix = cfg.pop("_unix", False)
     if serde:
         cfg["serde"] = serde
     ops = list(pre_ops)
@@ -83,7 +88,7 @@ def base_case(stack, nserv, extra, op, warm, prefill=None, serde=None, pre_ops=(
         # 'afterwards the client is still usable': let retry_timeout / dead_timeout elapse first, as C13 specifies
         ops.append(("advance", (500,), {}))
     ops.extend(FOLLOW)
-    return {"stack": stack, "servers": servers_for(nserv), "cfg": cfg, "ops": ops, "faulted": faulted, "faults": {},
+    return {"stack": stack, "servers": servers_for(nserv, unix), "cfg": cfg, "ops": ops, "faulted": faulted, "faults": {},
             "seg": ("whole",), "prefill": prefill or {}, "advance": 2 if stack.startswith("hash") else 0}
 
 
@@ -98,12 +103,12 @@ def miss_reference(case):
     return o.calls[0]["out"]
 
 
-def judge(res, case, o, miss, label, hit=None):
+def judge(res, case, o, miss, label, hit=None, f=None, out=None):
     stack = o.world.stack
-    f = case["faulted"]
+    f = case["faulted"] if f is None else f
     op = case["ops"][f]
     rec = o.calls[f]
-    out = rec["out"]
+    out = rec["out"] if out is None else out
     fclass = history.fault_class(case["faults"]) if case["faults"] else label
     dflt = "defaults" if (op[2].get("default") is S1 or (len(op[1]) > 1 and op[1][1] is S1)) else "nodefaults"
     res.count("miss_equivalence_checks")
@@ -220,6 +225,58 @@ def server_down(res, stack, nserv, extra, op, tier):
                 res.case((stack, nserv, tuple(sorted(extra.items())), op[0], repr(op[1:]), "down", kind, which, warm))
 
 
+def server_down_long(res, stack, nserv, extra, op, tier):
+    """the server stays down past retry_timeout and dead_timeout: the same read, repeated after each wait, is a miss
+    every time (the revival attempts of the fail-over bookkeeping run under ignore_exc too)"""
+    for kind in ("refused", "reset"):
+        for which in (["all"] + list(range(nserv)) if nserv > 1 else ["all"]):
+            idxs = list(range(nserv)) if which == "all" else [which]
+            pre = [("health", (i, kind), {}) for i in idxs]
+            ops_mid = [op, ("advance", (11,), {}), op, ("advance", (70,), {}), op, ("advance", (500,), {}), op]
+            post = [("health", (i, "up"), {}) for i in idxs] + [("advance", (500,), {})]
+            case = base_case(stack, nserv, extra, op, 0, pre_ops=pre + ops_mid[:-1], post_health=post)
+            miss = miss_reference(case)
+            o = history.execute(case)
+            first = len(pre)
+            for f in (first, first + 2, first + 4, first + 6):
+                assert case["ops"][f] == op
+                res.count("failures_fired")
+                judge(res, case, o, miss, "server-%s-%s-for-long" % (kind, which), f=f)
+            res.count("server_down_long_scenarios")
+            res.case((stack, nserv, tuple(sorted(extra.items())), op[0], repr(op[1:]), "downlong", kind, which))
+
+
+def caller_fills_result(res, stack, nserv, extra, tier):
+    """read-through pattern: the caller keeps the dict a failed multi-key read returned and fills it in; later failed
+    reads on the same object must still be misses (the miss result is the caller's own object, not shared state)"""
+    import copy
+    for multi in ("get_many", "gets_many"):
+        for later in (("get", ("k1",), {}), ("get", ("k1", S1), {}), ("gets", ("k1",), {}), (multi, (["k1", "k2"],), {}),
+                      ("gat", ("k1",), {"expire": 9})):
+            first_op = (multi, (["k1", "k2", "k3"],), {})
+            pre = [("health", (i, "refused"), {}) for i in range(nserv)]
+            post = [("health", (i, "up"), {}) for i in range(nserv)] + [("advance", (500,), {})]
+            case = base_case(stack, nserv, extra, later, 0, pre_ops=pre + [first_op], post_health=post)
+            fidx = len(pre)
+            snap = {}
+
+            def after_call(w, i, op, rec, fidx=fidx, snap=snap):
+                if i == fidx and rec["out"][0] == "ret" and isinstance(rec["out"][1], dict):
+                    snap["out"] = copy.deepcopy(rec["out"])
+                    for k in ("k1", "k2", "k3", b"k1"):
+                        rec["out"][1][k] = b"filled-in-by-the-caller"
+            miss = miss_reference(case)
+            c1 = dict(case)
+            c1["faulted"] = fidx
+            miss_first = miss_reference(c1)
+            o = history.execute(case, after_call=after_call)
+            res.count("failures_fired", 2)
+            res.count("caller_fills_result_scenarios")
+            judge(res, c1, o, miss_first, "all-refused", f=fidx, out=snap.get("out"))
+            judge(res, case, o, miss, "all-refused,after-the-caller-filled-the-previous-result")
+            res.case((stack, nserv, tuple(sorted(extra.items())), multi, later[0], repr(later[1:]), "fills"))
+
+
 def bad_items(res, stack, nserv, extra, op, tier):
     """undeserialisable / undecodable items stored on the server"""
     from pymemcache import serde as sd
@@ -268,7 +325,11 @@ def shard(tier, seed, idx, n):
         work += 1
         if work % n == idx:
             server_down(res, stack, nserv, extra, op, tier)
+            server_down_long(res, stack, nserv, extra, op, tier)
             bad_items(res, stack, nserv, extra, op, tier)
+    for si, (stack, nserv, extra) in enumerate(STACKS):
+        if si % n == idx:
+            caller_fills_result(res, stack, nserv, extra, tier)
     res.extra["exhaustive"] = True
     res.extra["exhaustive_part"] = "single-fault plans over every socket call of every read on every stack; server-down and bad-item scenarios"
     return res
